@@ -19,6 +19,7 @@ type c16Format struct {
 	unit   int64 // ns per representable step (0 for STL: frame based)
 	fps    int64 // STL only
 	maxH   int64 // exclusive bound in hours
+	tcp    int64 // STL only: timecode start of programme (ns), added to every boundary in the file
 	write  func(s astisub.Subtitles, b *bytes.Buffer) error
 	read   func(b []byte) (*astisub.Subtitles, error)
 	decode func(b []byte) ([]int64, string) // independent decoder: instants in document order, or a grammar error
@@ -65,7 +66,7 @@ func c16DecodeText(re *regexp.Regexp, fracUnit int64) func(b []byte) ([]int64, s
 	}
 }
 
-func c16DecodeSTL(fps int64) func(b []byte) ([]int64, string) {
+func c16DecodeSTL(fps int64, maxHours int64) func(b []byte) ([]int64, string) {
 	return func(b []byte) ([]int64, string) {
 		if len(b) < 1024 || (len(b)-1024)%128 != 0 {
 			return nil, fmt.Sprintf("file size %d is not 1024 + 128n", len(b))
@@ -74,7 +75,7 @@ func c16DecodeSTL(fps int64) func(b []byte) ([]int64, string) {
 		for off := 1024; off < len(b); off += 128 {
 			for _, p := range []int{5, 9} {
 				h, m, s, f := int64(b[off+p]), int64(b[off+p+1]), int64(b[off+p+2]), int64(b[off+p+3])
-				if h >= 24 || m >= 60 || s >= 60 || f >= fps {
+				if h >= maxHours || m >= 60 || s >= 60 || f >= fps {
 					return nil, fmt.Sprintf("timecode %d:%d:%d:%d out of range at %d fps", h, m, s, f, fps)
 				}
 				out = append(out, h*3600e9+m*60e9+s*1e9+(f*1e9+fps-1)/fps)
@@ -108,13 +109,26 @@ var c16Formats = []*c16Format{
 		read: func(b []byte) (*astisub.Subtitles, error) {
 			return astisub.ReadFromSTL(bytes.NewReader(b), astisub.STLOptions{})
 		},
-		decode: c16DecodeSTL(25)},
+		decode: c16DecodeSTL(25, 24)},
 	{name: "stl30", fps: 30, maxH: 24,
 		write: func(s astisub.Subtitles, b *bytes.Buffer) error { return s.WriteToSTL(b) },
 		read: func(b []byte) (*astisub.Subtitles, error) {
 			return astisub.ReadFromSTL(bytes.NewReader(b), astisub.STLOptions{})
 		},
-		decode: c16DecodeSTL(30)},
+		decode: c16DecodeSTL(30, 24)},
+	// with a programme start timecode: the file carries boundary + TCP (possibly beyond 24:00:00:00), the reader subtracts it
+	{name: "stl25+tcp", fps: 25, maxH: 24, tcp: (9*3600+59*60+58)*1000000000 + 12*40000000,
+		write: func(s astisub.Subtitles, b *bytes.Buffer) error { return s.WriteToSTL(b) },
+		read: func(b []byte) (*astisub.Subtitles, error) {
+			return astisub.ReadFromSTL(bytes.NewReader(b), astisub.STLOptions{})
+		},
+		decode: c16DecodeSTL(25, 256)},
+	{name: "stl30+tcp", fps: 30, maxH: 24, tcp: 23*3600*1000000000 + (7*1000000000+29)/30,
+		write: func(s astisub.Subtitles, b *bytes.Buffer) error { return s.WriteToSTL(b) },
+		read: func(b []byte) (*astisub.Subtitles, error) {
+			return astisub.ReadFromSTL(bytes.NewReader(b), astisub.STLOptions{})
+		},
+		decode: c16DecodeSTL(30, 256)},
 }
 
 const c16Doc = 10000 // instants per document
@@ -269,7 +283,7 @@ func c16Run(c *fw.Ctx) fw.Outcome {
 	sub := astisub.NewSubtitles()
 	if f.fps > 0 {
 		cd := time.Date(2020, 1, 2, 0, 0, 0, 0, time.UTC)
-		sub.Metadata = &astisub.Metadata{Framerate: int(f.fps), STLDisplayStandardCode: "0", STLCreationDate: &cd, STLRevisionDate: &cd}
+		sub.Metadata = &astisub.Metadata{Framerate: int(f.fps), STLDisplayStandardCode: "0", STLCreationDate: &cd, STLRevisionDate: &cd, STLTimecodeStartOfProgramme: time.Duration(f.tcp)}
 	}
 	line := []astisub.Line{{Items: []astisub.LineItem{{Text: "x"}}}}
 	for k := 0; k+1 < len(ins); k += 2 {
@@ -290,8 +304,8 @@ func c16Run(c *fw.Ctx) fw.Outcome {
 		return fw.Bad(key, desc, "%s: %d timestamps decoded from the output, %d boundaries written", desc, len(dec), len(ins))
 	}
 	for k, t := range ins {
-		if want := c16Floor(f, t); dec[k] != want {
-			return fw.Bad(key, desc, "%s: instant %d ns is rendered as %d ns, the latest representable instant not after it is %d ns", f.name, t, dec[k], want)
+		if want := c16Floor(f, t+f.tcp); dec[k] != want {
+			return fw.Bad(key, desc, "%s: instant %d ns (+ programme start %d ns) is rendered as %d ns, the latest representable instant not after it is %d ns", f.name, t, f.tcp, dec[k], want)
 		}
 		if k > 0 && ins[k] >= ins[k-1] && dec[k] < dec[k-1] {
 			return fw.Bad(key, desc, "%s: later instant %d renders earlier (%d) than instant %d (%d)", f.name, ins[k], dec[k], ins[k-1], dec[k-1])
@@ -307,10 +321,13 @@ func c16Run(c *fw.Ctx) fw.Outcome {
 	tol := int64(0)
 	if f.fps > 0 {
 		tol = 1
+		if f.tcp > 0 {
+			tol = 2 // two roundings to the nanosecond: the boundary and the programme start
+		}
 	}
 	for k, it := range back.Items {
 		for j, g := range []int64{int64(it.StartAt), int64(it.EndAt)} {
-			want := c16Floor(f, ins[2*k+j])
+			want := c16Floor(f, ins[2*k+j]+f.tcp) - f.tcp
 			if g < want-tol || g > want+tol {
 				return fw.Bad(key, desc, "%s: instant %d ns written, read back as %d ns, expected %d ns", f.name, ins[2*k+j], g, want)
 			}
@@ -338,7 +355,7 @@ func init() {
 	fw.Register(&fw.Property{
 		ID:    "C16",
 		Level: "exploration",
-		Rule: "case = one document of up to 10 000 cue boundaries written by the public writer of one of {srt, webvtt, ttml, ssa, stl@25, stl@30}. Oracle per boundary: the rendered field matches a strict grammar regexp (STL: byte ranges), its value decoded by the harness equals floor(instant) at the format's resolution, the same format's reader returns that value (+-1 ns for STL), rewriting the re-read list is byte-identical, and renderings of increasing instants never decrease. " +
+		Rule: "case = one document of up to 10 000 cue boundaries written by the public writer of one of {srt, webvtt, ttml, ssa, stl@25, stl@30, stl@25 with programme start 09:59:58:12, stl@30 with programme start 23:00:00:07}. Oracle per boundary: the rendered field matches a strict grammar regexp (STL: byte ranges), its value decoded by the harness equals floor(instant) at the format's resolution, the same format's reader returns that value (+-1 ns for STL), rewriting the re-read list is byte-identical, and renderings of increasing instants never decrease. " +
 			"Families: every k-th millisecond of [0,24h) (k=997 quick, k=1 thorough = exhaustive), every second boundary of the day +-1 ns, every k-th centisecond/frame boundary +-1 ns, hours {0,1,9,10,23,24,99} x all minutes x seconds {0,1,9,10,58,59} x {-1ns,0,+1ns,.5,.999,.999999999}, random ns instants. distinct_nontrivial = distinct documents compared; the number of instants is in events.instants_<format>.",
 		Assumptions: []string{"instants in [0,100h) ([0,24h) for STL); observation through WriteTo*/ReadFrom* only", "STL written with display standard 0 (open subtitling) and explicit creation/revision dates so that whole files can be compared"},
 		Cases:       c16Total,
